@@ -10,7 +10,7 @@ RULE = ("seeded valid schema x 3 generated operations (aliases, nesting, every w
 
 def run(tier, seed):
     n = 1500 if tier == "thorough" else 160
-    return cw.run_shared(PROP, tier, seed, n, RULE, floors={"c01.responses": 200, "c01.abstract_positions": 50, "c01.typename_checks": 50, "c01.enum_leaves": 20, "c01.lists": 100}, case_hook=cw.with_mixins, dirty_sets=[[], ["dir.custom", "frag.uses_variables"], [], ["shape.iface_hierarchy"], ["schema.extend"], [], ["sel.field_merge"], ["frag.inline.on_interface"], [], ["names.leading_underscore"], ["frag.uses_variables", "shape.iface_hierarchy"], ["frag.inline.on_same_abstract"], ["names.pydantic_attr"]])
+    return cw.run_shared(PROP, tier, seed, n, RULE, floors={"c01.responses": 200, "c01.abstract_positions": 50, "c01.typename_checks": 50, "c01.enum_leaves": 20, "c01.lists": 100}, case_hook=cw.with_mixins, dirty_sets=[[], ["dir.custom", "frag.uses_variables"], [], ["shape.iface_hierarchy"], ["schema.extend"], [], ["sel.field_merge"], ["frag.inline.on_interface"], [], ["names.leading_underscore"], ["frag.uses_variables", "shape.iface_hierarchy"], ["frag.inline.on_same_abstract"], ["names.pydantic_attr"], ["wrap.deep"]])
 
 
 def replay(data):
